@@ -139,7 +139,7 @@ class AbsoluteSequence(AbstractSequence):
             self_msg = self_msgs[0]
             other_msg = other_msgs[0]
 
-            if self_msg.message_type != other_msg.message_type:
+            if self_msg.message_type != other_msg.message_type or self_msg.time != other_msg.time:
                 return False
 
             if self_msg.message_type == MessageType.NOTE_ON:
